@@ -399,6 +399,7 @@ func (w *World) genBad() *Op {
 	t := w.s.T
 	type bad struct{ kind, path, method, query, body, class string }
 	big := "9223372036854775808"
+	maxU := "18446744073709551615"
 	cases := []bad{
 		{"get-sth", "/ct/v1/get-sth", "POST", "", "", "method"},
 		{"add-chain", "/ct/v1/add-chain", "GET", "", "", "method"},
@@ -430,6 +431,20 @@ func (w *World) genBad() *Op {
 		{"get-entries", "/ct/v1/get-entries", "GET", q("start", "0", "end", "-2"), "", "param.range"},
 		{"get-entries", "/ct/v1/get-entries", "GET", q("start", "5", "end", "2"), "", "param.range"},
 		{"get-entries", "/ct/v1/get-entries", "GET", "start=%zz&end=1", "", "param.form"},
+		// decimals beyond int64 (they wrap to negative numbers when read unsigned)
+		{"get-entries", "/ct/v1/get-entries", "GET", q("start", big, "end", "9223372036854775810"), "", "param.malformed"},
+		{"get-entries", "/ct/v1/get-entries", "GET", q("start", maxU, "end", "5"), "", "param.malformed"},
+		{"get-entries", "/ct/v1/get-entries", "GET", q("start", maxU, "end", maxU), "", "param.malformed"},
+		{"get-entries", "/ct/v1/get-entries", "GET", q("start", "18446744073709551616", "end", "18446744073709551617"), "", "param.malformed"},
+		{"get-sth-consistency", "/ct/v1/get-sth-consistency", "GET", q("first", big, "second", maxU), "", "param.malformed"},
+		{"get-entry-and-proof", "/ct/v1/get-entry-and-proof", "GET", q("leaf_index", maxU, "tree_size", "2"), "", "param.malformed"},
+		{"get-proof-by-hash", "/ct/v1/get-proof-by-hash", "GET", q("hash", "AAAA", "tree_size", maxU), "", "param.malformed"},
+		// a query string that does not parse as a form, around well-formed values
+		{"get-entries", "/ct/v1/get-entries", "GET", "start=0&end=0&x=%zz", "", "param.form"},
+		{"get-entries", "/ct/v1/get-entries", "GET", "start=0&end=0&a;b", "", "param.form"},
+		{"get-sth-consistency", "/ct/v1/get-sth-consistency", "GET", "first=0&second=1&%", "", "param.form"},
+		{"get-proof-by-hash", "/ct/v1/get-proof-by-hash", "GET", "%zz=1&tree_size=1&hash=" + url.QueryEscape(base64.StdEncoding.EncodeToString(make([]byte, 32))), "", "param.form"},
+		{"get-entry-and-proof", "/ct/v1/get-entry-and-proof", "GET", "leaf_index=0&tree_size=1&k=%f", "", "param.form"},
 		{"get-entry-and-proof", "/ct/v1/get-entry-and-proof", "GET", q("tree_size", "2"), "", "param.missing"},
 		{"get-entry-and-proof", "/ct/v1/get-entry-and-proof", "GET", q("leaf_index", "0"), "", "param.missing"},
 		{"get-entry-and-proof", "/ct/v1/get-entry-and-proof", "GET", q("leaf_index", "0", "tree_size", "0"), "", "param.range"},
